@@ -1,4 +1,5 @@
 import Dbg.Model.Walk
+import Dbg.Gen.Consts
 /-! Sequence-level vocabulary shared by all Layer-1 models: bases, strings, reverse complement,
     extension by a base, canonical form, extension sets (lib.rs 577-749). -/
 namespace Compress
@@ -33,6 +34,17 @@ def Exts.dirBits (e : Exts) : Dir → Nat
 def Exts.numExtDir (e : Exts) (d : Dir) : Nat :=
   let b := e.dirBits d
   (b &&& 1) + ((b &&& 2) >>> 1) + ((b &&& 4) >>> 2) + ((b &&& 8) >>> 3)
+/-- `Exts::complement` (swap bits, swap pairs) with the extracted masks -/
+def Exts.complement (e : Exts) : Exts :=
+  ⟨Gen.extsComplement.foldl (fun r (ms : Nat × Nat) => (((r &&& ms.1) <<< ms.2) ||| ((r >>> ms.2) &&& ms.1)) % 256) e.val⟩
+/-- `Exts::reverse` -/
+def Exts.reverse (e : Exts) : Exts := ⟨(((e.val &&& Gen.extsReverse.1) <<< Gen.extsReverse.2.1) ||| (e.val >>> Gen.extsReverse.2.2)) % 256⟩
+/-- `Exts::rc` -/
+def Exts.rc (e : Exts) : Exts := e.reverse.complement
+/-- `Exts::merge(left, right)` -/
+def Exts.merge (l r : Exts) : Exts := ⟨(l.val &&& Gen.extsMerge.1) ||| (r.val &&& Gen.extsMerge.2)⟩
+def Exts.hasExt (e : Exts) (d : Dir) (b : Nat) : Bool := (e.dirBits d &&& (1 <<< b)) > 0
+
 def Exts.singleDir (e : Exts) (d : Dir) : Exts := ⟨e.dirBits d⟩
 def Exts.uniqueExt (e : Exts) (d : Dir) : Option Base :=
   if e.numExtDir d != 1 then none
